@@ -9,7 +9,7 @@ import uuid
 
 VERIF = os.path.dirname(os.path.dirname(os.path.abspath(__file__)))
 REPO = os.environ.get("RDX_REPO", "/repo")
-CACHE = os.path.join(VERIF, ".cache")
+CACHE = os.environ.get("VERIF_CACHE") or os.path.join(VERIF, ".cache")
 RDX = os.path.join(VERIF, "extract", "target", "debug", "rdx")
 
 CONFIGS = {
@@ -22,7 +22,7 @@ CONFIGS = {
     "release": (["--features", "serde", "--release"], {}),
 }
 
-QUICK_WEIGHTS = "u32,i32,f64"
+QUICK_WEIGHTS = "u8,u32,i32,f64"
 ALL_WEIGHTS = "u8,u16,u32,u64,u128,usize,i8,i16,i32,i64,i128,f32,f64"
 
 
